@@ -39,8 +39,9 @@ def _str_text(rng, s: str, stats=None) -> str:
     return "".join(out)
 
 
-def rand_text(rng, v) -> str:
-    """JSON text that parses to v (floats written with repr)"""
+def rand_text(rng, v, float_variants: bool = True) -> str:
+    """JSON text that parses to v (floats written with repr; with `float_variants` sometimes with an upper-case exponent marker — only for
+    comparisons by value: the model keeps a float's token as written, the implementation re-renders it)"""
     if v is None:
         return "null"
     if v is True:
@@ -59,19 +60,19 @@ def rand_text(rng, v) -> str:
         if v == float("-inf"):
             return "-Infinity"
         t = repr(v)
-        if rng.random() < 0.2:
+        if float_variants and rng.random() < 0.2:
             t = t.replace("e", "E")
         return t
     if isinstance(v, str):
         return _str_text(rng, v)
     if isinstance(v, (list, tuple)):
-        return "[" + _ws(rng) + ("," + _ws(rng)).join(_ws(rng) + rand_text(rng, x) + _ws(rng) for x in v) + _ws(rng) + "]"
+        return "[" + _ws(rng) + ("," + _ws(rng)).join(_ws(rng) + rand_text(rng, x, float_variants) + _ws(rng) for x in v) + _ws(rng) + "]"
     if isinstance(v, dict):
         parts = []
         for k, x in v.items():
             if rng.random() < 0.05:  # duplicate key: the later value wins, position of the first
                 parts.append(_ws(rng) + _str_text(rng, k) + _ws(rng) + ":" + _ws(rng) + rng.choice(["1", "null", '"dup"']) + _ws(rng))
-            parts.append(_ws(rng) + _str_text(rng, k) + _ws(rng) + ":" + _ws(rng) + rand_text(rng, x) + _ws(rng))
+            parts.append(_ws(rng) + _str_text(rng, k) + _ws(rng) + ":" + _ws(rng) + rand_text(rng, x, float_variants) + _ws(rng))
         # duplicates must precede the real one to keep the value; we inserted them before, fine
         return "{" + ",".join(parts) + "}"
     raise TypeError(type(v))
